@@ -29,7 +29,10 @@ def _rt(d):
 
 
 def check_psbt(case):
-    p = gp.build_psbt(case["psbt"])
+    try:
+        p = gp.build_psbt(case["psbt"])
+    except LIBEXC:
+        return Outcome(False, ("generator-refused",))  # e.g. an "unknown" key type the library has since learnt: not an object it takes as valid
     ver = p.version
     b = p.serialize()
     # objects -> bytes -> objects
@@ -102,18 +105,22 @@ def check_psbt(case):
     elif edit == "drop-separator":
         data = b[:-1]
         expect_refusal = True
+    cv = rng.random() < 0.7  # the unchecked parse reads the same encodings and is held to the same fixed point
     try:
-        q = Psbt.parse(data)
+        q = Psbt.parse(data, check_validity=cv)
     except LIBEXC:
         q = None
     if q is None:
         if edit in ("none", "shuffle-keys", "add-unknown"):
             raise Violation(f"psbt:valid-encoding-refused:{edit}:v{ver}", data.hex()[:400])
-        return Outcome(True, (f"v{ver}", edit, "refused"))
+        return Outcome(True, (f"v{ver}", edit, "refused", f"cv={cv}"))
     if expect_refusal:
         raise Violation(f"psbt:malformed-accepted:{edit}", data.hex()[:400])
-    out = q.serialize()
-    if Psbt.parse(out).serialize() != out:
+    try:
+        out = q.serialize(check_validity=cv)
+    except LIBEXC as e:
+        raise Violation(f"psbt:accepted-bytes-refused-by-the-writer:{edit}:cv={cv}", f"{data.hex()[:400]}: {e}") from e
+    if Psbt.parse(out, check_validity=cv).serialize(check_validity=cv) != out:
         raise Violation(f"psbt:reserialization-not-a-fixed-point:{edit}", "")
     try:
         want, got = pref.pairs(data), pref.pairs(out)
